@@ -5,6 +5,7 @@
 
 mod c06;
 mod c07;
+mod c08;
 mod c11;
 mod c12;
 mod c19;
@@ -17,6 +18,7 @@ fn main() {
     match cli.property.as_str() {
         "C06" => c06::run(&cli),
         "C07" => c07::run(&cli),
+        "C08" => c08::run(&cli),
         "C11" => c11::run(&cli),
         "C12" => c12::run(&cli),
         "C19" => c19::run(&cli),
